@@ -8,7 +8,9 @@ from pathlib import Path
 import numpy as np
 from pydantic import BaseModel, ValidationError
 
-from ropt.config.enopt import EnOptConfig
+from ropt.config.enopt import (EnOptConfig, GradientConfig, LinearConstraintsConfig, NonlinearConstraintsConfig,
+                               ObjectiveFunctionsConfig, RealizationsConfig, VariablesConfig)
+from ropt.transforms import OptModelTransforms, VariableScaler
 from ropt.enums import PerturbationType
 
 from ..core import PropertyCheck, nums
@@ -86,6 +88,52 @@ def project(c: EnOptConfig):
 EMPTY = {"accepted": False, "rw": [], "ow": [], "rms": 0, "pms": 0, "lb": [], "ub": [], "mask": [], "magn": [], "nlin": 0, "nnl": 0}
 
 
+PARTS = {"variables": VariablesConfig, "gradient": GradientConfig, "linear_constraints": LinearConstraintsConfig,
+         "nonlinear_constraints": NonlinearConstraintsConfig, "objectives": ObjectiveFunctionsConfig, "realizations": RealizationsConfig}
+NOTDONE = {"done": False, "first": dict(EMPTY), "route": dict(EMPTY), "objects": dict(EMPTY), "objects2": dict(EMPTY),
+           "parts_unchanged": True, "mutations": []}
+
+
+def _try(fn):
+    try:
+        return project(fn())
+    except (ValidationError, ValueError, TypeError, AssertionError):
+        return dict(EMPTY)
+
+
+def _snapshot(obj):
+    return json.dumps(obj.model_dump(round_trip=True), default=jsonable, sort_keys=True), [
+        bool(v.flags.writeable) for v in vars(obj).values() if isinstance(v, np.ndarray)]
+
+
+def transformed(raw, sc, plain):
+    """Validation with a variable transform in the context: from the raw dictionary, from the dumped form of the plain
+    validation, and (twice) from sections the caller has validated beforehand as objects of their own."""
+    V = sc["V"]
+    ctx = OptModelTransforms(variables=VariableScaler(np.array([2.0, 0.5, 4.0][:V]), np.array([1.0, 2.0, 3.0][:V])))
+    out = dict(NOTDONE, done=True)
+    first = None
+    try:
+        first = EnOptConfig.model_validate(raw, context=ctx)
+        out["first"] = project(first)
+    except (ValidationError, ValueError, TypeError, AssertionError):
+        pass
+    dumped = json.loads(json.dumps(plain.model_dump(round_trip=True), default=jsonable))
+    out["route"] = _try(lambda: EnOptConfig.model_validate(dumped, context=ctx))
+    parts = {k: PARTS[k].model_validate(v) for k, v in raw.items() if k in PARTS and k != "gradient"}
+    # (the gradient section needs the variables to expand itself and is handed over as a dictionary)
+    before = {k: _snapshot(v) for k, v in parts.items()}
+    mixed = {**raw, **parts}
+    out["objects"] = _try(lambda: EnOptConfig.model_validate(mixed, context=ctx))
+    out["objects2"] = _try(lambda: EnOptConfig.model_validate(mixed, context=ctx))
+    out["parts_unchanged"] = all(before[k] == _snapshot(v) for k, v in parts.items())
+    if first is not None:
+        muts = []
+        mutate(first, "config", muts, set())
+        out["mutations"] = muts
+    return out
+
+
 def jsonable(o):
     if isinstance(o, np.ndarray):
         return o.tolist()
@@ -132,7 +180,8 @@ def mutate(obj, path, out, seen):
 def drive(sc):
     raw = raw_config(sc)
     e = {"ev": "Canon", **{k: sc[k] for k in ("V", "R", "rwp", "owp", "bnd", "mask", "ptype", "magn", "rms", "pms", "lin", "nl")},
-         "accepted": False, "first": dict(EMPTY), "again": dict(EMPTY), "sameobject": True, "mutations": [], "error": ""}
+         "accepted": False, "first": dict(EMPTY), "again": dict(EMPTY), "sameobject": True, "mutations": [], "error": "",
+         "tf": dict(NOTDONE)}
     try:
         c = EnOptConfig.model_validate(raw)
     except (ValidationError, ValueError) as exc:
@@ -150,6 +199,7 @@ def drive(sc):
     muts = []
     mutate(c, "config", muts, set())
     e["mutations"] = muts
+    e["tf"] = transformed(raw, sc, c)
     nondefault = sum([sc["rwp"] != "ones", sc["owp"] != "one", sc["bnd"] != "default", sc["mask"] != "none", sc["ptype"] != "abs",
                       sc["magn"] != "scalar", sc["rms"] >= 0, sc["pms"] >= 0, sc["lin"] != "none", sc["nl"] != "none"])
     return [e], {"nontrivial": bool(nondefault >= 2), "key": str(sc), "rejected": False, "ptype": sc["ptype"],
@@ -165,7 +215,10 @@ CHECK = PropertyCheck(
     rule=("TLC enumerates three families of raw configurations (weights/thresholds; bounds, masks, perturbation types and magnitudes "
           "in scalar / vector / wrong-length / crossed / infinite forms; linear and non-linear constraint shapes) and checks the canonical "
           "form facts of ConfigCanon.tla; each is validated by EnOptConfig, dumped, re-validated, validated as an object, and every "
-          "attribute and array reachable from it is mutation-tested. Non-trivial: >=2 non-default sections."),
-    assumptions=["re-validation without a transforms context (the hand-off to an external optimizer process)",
+          "attribute and array reachable from it is mutation-tested; then the same with a variable transform in the validation context "
+          "(from the raw dictionary, from the dumped plain validation, twice from sections validated beforehand as objects, which "
+          "must stay untouched), compared with ConfigCanon!ScaledCanon. Non-trivial: >=2 non-default sections."),
+    assumptions=["re-validation of a dumped form without a transforms context is the hand-off to an external optimizer process; with a "
+                 "context the dumped form of the PLAIN validation is used (a dumped transformed configuration is already in the optimizer domain)",
                  "the options dictionaries are user data and are not mutation-tested"],
 )
